@@ -32,7 +32,11 @@ def listen_units(world):
 
 def version_units(world):
     prepare(world)
-    return mk(gateway_c.version_units(world))
+    units = mk(gateway_c.version_units(world))
+    rel = mk(gateway_c.release_units(world))
+    for u in rel:
+        u.no_contract_for = (gateway_c.GETP,)  # the real get_protocol body, not its contract
+    return units + rel
 
 
 def codec_units(world, which):
